@@ -586,6 +586,26 @@ encodeResponse:
             *alertLevel = SSL_ALERT_LEVEL_FATAL;
         }
     }
+    if (rc == SSL_FULL && useOutbufForResponse)
+    {
+        /* The response goes to outbuf because input behind the current
+           record is still waiting in inbuf. Returning SSL_FULL would make
+           the caller give that input up (it resets inlen and has the flight
+           encoded over inbuf): make room in outbuf here and encode again. */
+        uint32 need = ssl->outlen + *requiredLen;
+        unsigned char *grown;
+
+        if (need <= SSL_MAX_BUF_SIZE && need > (uint32) ssl->outsize &&
+            (grown = psRealloc(ssl->outbuf, need, ssl->bufferPool)) != NULL)
+        {
+            ssl->outbuf = grown;
+            ssl->outsize = need;
+            goto encodeResponse;
+        }
+        ssl->err = SSL_ALERT_INTERNAL_ERROR;
+        *error = MATRIXSSL_ERROR;
+        return PS_MEM_FAIL;
+    }
     if (rc == SSL_FULL)
     {
         ssl->flags |= SSL_FLAGS_NEED_ENCODE;
